@@ -898,6 +898,8 @@ class BaseWorkflow(object, metaclass=abc.ABCMeta):
             task.lst = task.lft - task.remaining_work_amount
 
         # 3. Calculate PERT information of all tasks
+        # (tasks whose lst/lft have been set in this pass: a negative value is a value, not "unset")
+        calculated_task_set = set()
         while len(output_task_set) > 0:
             prev_task_set = set()
             for output_task in output_task_set:
@@ -924,9 +926,10 @@ class BaseWorkflow(object, metaclass=abc.ABCMeta):
                     else:
                         lft = output_task.lst
                         lst = lft - prev_task.remaining_work_amount
-                    if pre_lft < 0 or pre_lft >= lft:
+                    if prev_task not in calculated_task_set or pre_lft >= lft:
                         prev_task.lst = lst
                         prev_task.lft = lft
+                        calculated_task_set.add(prev_task)
                     prev_task_set.add(prev_task)
 
             output_task_set = [task for task in self.task_list if task in prev_task_set]
